@@ -372,3 +372,41 @@ Proof.
   - unfold h, header_of_raw. cbn [h_files]. unfold files_of_raw. cbn [raw4 rh_version rh_files]. rewrite Te.
     destruct (N.leb_spec (W.e_version e) 4) as [_|Hc]; [|lia]. rewrite Tf. apply files_of_raw4.
 Qed.
+
+(* ------------------------------------------------------------------ non-vacuity: a concrete program *)
+Definition ex_enc : W.enc := W.mkEnc false 4 8.
+Definition ex_lenc : W.lenc := W.mkLenc 1 2 true (-5) 14.
+Definition ex_info : W.finfo := W.mkFinfo 1234 5678 (repeat x00 16) None.
+
+(* new(..); add_directory("inc"); add_file("a.c", dir 1, info); add_file("b.h", dir 0, None) *)
+Definition ex_prog : res W.prog :=
+  let* p := W.lp_new false ex_enc ex_lenc (W.LStr [x64]) None (W.LStr [x66]) None in
+  let* (p, d) := W.add_directory p (W.LStr [x69; x6e; x63]) in
+  let* (p, _) := W.add_file p (W.LStr [x61; x2e; x63]) d (Some ex_info) in
+  let* (p, _) := W.add_file p (W.LStr [x62; x2e; x68]) 0 None in
+  Ok p.
+
+Definition ex_ops : list P2.rop :=
+  [P2.RBegin (Some 4096%N); P2.RRow (P2.prow 0 0 7); P2.RRow (P2.prow 3 1 18446744073709551615);
+   P2.RSetAddr 8192; P2.RRow (P2.prow 4 0 2); P2.RRow (P2.prow 10 1 2); P2.REnd 12 0;
+   P2.RSetAddr 100; P2.RRow (P2.prow 0 0 1); P2.REnd 1 1].
+
+Lemma ex_prog_ok : exists p0, ex_prog = Ok p0 /\
+  W.p_insns p0 = [] /\ W.p_prev p0 = W.wrow_initial ex_enc ex_lenc /\ W.p_in_seq p0 = false /\
+  W.p_enc p0 = ex_enc /\ W.p_lenc p0 = ex_lenc /\
+  Forall dir4_ok (tl (W.p_dirs p0)) /\ Forall file4_ok (W.p_files p0) /\
+  length (W.p_files p0) = 2%nat.
+Proof.
+  eexists. split; [vm_compute; reflexivity|]. cbn.
+  repeat split.
+  - constructor; [|constructor]. eexists. split; [reflexivity|]. split; [discriminate|reflexivity].
+  - constructor; [|constructor; [|constructor]]; eexists; cbn;
+      (split; [reflexivity|]; split; [discriminate|]; split; [reflexivity|]; unfold two64; lia).
+Qed.
+
+Lemma ex_script_enc_ok :
+  script_enc_ok (hdr_of_asz 8) 4 (W.params_of ex_lenc) (A.init_regs (W.params_of ex_lenc), 0) ex_ops.
+Proof.
+  unfold ex_ops. cbn [script_enc_ok P2.m_step fst snd].
+  unfold wrow_u64, bounds, addr_mask, two64z. cbn. repeat split; lia.
+Qed.
